@@ -112,7 +112,7 @@ PROPS = {
     "C16": dict(cfgs={"quick": ["snap-2"], "thorough": ["snap-2", "snap-3", "snap-4"]},
                 sample={"quick": {"file": 800, "rocks": 100}, "thorough": {"file": 30000, "rocks": 3000}}),
     "C23": dict(cfgs={"quick": ["ttl-w", "ttl-r", "ttl-s"], "thorough": ["ttl-w", "ttl-r", "ttl-s", "ttl-w2"]},
-                sample={"quick": {"file": 270, "rocks": 60}, "thorough": {"file": 0, "rocks": 900}}, jobs=24),
+                sample={"quick": {"file": 186, "rocks": 36}, "thorough": {"file": 0, "rocks": 900}}, jobs=32),
     "C25": dict(cfgs={"quick": ["scanc-2"], "thorough": ["scanc-2", "scanc-3", "keys-4"]},
                 sample={"quick": {"file": 900, "rocks": 500}, "thorough": {"file": 0, "rocks": 12000}}),
 }
